@@ -99,7 +99,7 @@ func (c10) Info() core.Info {
 			"closed lists and Open() results returned earlier must not change under later calls (they are the caller's)",
 		},
 		SimTimeUnit:    "sim_ticks_90khz",
-		RequiredProbes: []string{"breakaway_then_closer", "breakaway_then_explicit_close_below", "resumption_with_breakaway", "resumption_without_breakaway", "second_breakaway", "dup_within_ring", "dup_beyond_ring", "timer_close_hit", "timer_close_miss", "multi_descriptor_signal", "pts_wrap", "no_pts", "vss_pair", "open_depth_ge4", "transport_path", "same_object_twice", "held_lists_checked", "caller_wipes_open_list", "unpolled_stretch", "unpolled_ge_256_calls", "open_depth_ge64", "restamped_signal_through_transport", "pts_time_plus_adjustment_wraps", "descriptor_with_cancel_indicator"},
+		RequiredProbes: []string{"breakaway_then_closer", "breakaway_then_explicit_close_below", "resumption_with_breakaway", "resumption_without_breakaway", "second_breakaway", "dup_within_ring", "dup_beyond_ring", "timer_close_hit", "timer_close_miss", "multi_descriptor_signal", "pts_wrap", "no_pts", "vss_pair", "open_depth_ge4", "transport_path", "same_object_twice", "held_lists_checked", "caller_wipes_open_list", "unpolled_stretch", "unpolled_ge_256_calls", "open_depth_ge64", "restamped_signal_through_transport", "pts_time_plus_adjustment_wraps", "descriptor_with_cancel_indicator", "no_pts_but_pts_adjustment"},
 	}
 }
 
@@ -491,9 +491,7 @@ func (c10) Gen(r *core.Rand, tier string) interface{} {
 	if r.Chance(1, 4) {
 		sh := int64(r.Pick(1, 90000, 27000000, 1<<32, 1<<33-1))
 		for i := range s.Signals {
-			if !s.Signals[i].NoPTS {
-				s.Signals[i].Shift = sh
-			}
+			s.Signals[i].Shift = sh // (a signal without a time gets the pts_adjustment alone)
 		}
 	}
 	if r.Bool() {
@@ -564,6 +562,10 @@ func (c10) Size(script interface{}) int {
 
 func c10Build(sg C10Signal, base int64) (scte35.SCTE35, []scte35.SegmentationDescriptor) {
 	sc := scte35.CreateSCTE35()
+	if sg.NoPTS && sg.Shift != 0 {
+		// a splice_null re-stamped by a device upstream: a pts_adjustment, but still no time
+		sc.SetAdjustPTS(gots.PTS(uint64(sg.Shift) % uint64(ptsMod)))
+	}
 	if !sg.NoPTS {
 		cmd := scte35.CreateTimeSignalCommand()
 		cmd.SetHasPTS(true)
@@ -993,6 +995,7 @@ func (c10) Exec(script interface{}, c *core.Ctx) {
 		return true
 	}
 
+	scripted := map[scte35.SegmentationDescriptor]C10Signal{} // descriptor object -> the scripted signal it came with
 	var process func(d scte35.SegmentationDescriptor, spec *C10Desc, twice bool, sigT int64) bool
 	process = func(d scte35.SegmentationDescriptor, spec *C10Desc, twice bool, sigT int64) bool {
 		before, ok := getOpen()
@@ -1006,7 +1009,13 @@ func (c10) Exec(script interface{}, c *core.Ctx) {
 		if d.IsEventCanceled() {
 			c.Probe("descriptor_with_cancel_indicator")
 		}
+		// whether the signal carries a time is what the script says, not what the library's
+		// own HasPTS() answers
 		hasPTS := d.SCTE35().HasPTS()
+		sigShift := int64(0)
+		if sgi, ok := scripted[d]; ok {
+			hasPTS, sigShift = !sgi.NoPTS, sgi.Shift
+		}
 		var closed []scte35.SegmentationDescriptor
 		var err error
 		a0 := core.HeapAllocs()
@@ -1035,6 +1044,9 @@ func (c10) Exec(script interface{}, c *core.Ctx) {
 		}
 		if !hasPTS {
 			c.Probe("no_pts")
+			if spec != nil && sigShift != 0 {
+				c.Probe("no_pts_but_pts_adjustment")
+			}
 			if err == nil {
 				c.Fail("no_pts_rejected", "descriptor_without_pts_accepted", nil, "an error")
 				return false
@@ -1244,6 +1256,7 @@ func (c10) Exec(script interface{}, c *core.Ctx) {
 					c.Probe("vss_pair")
 				}
 			}
+			scripted[d] = sg
 			if !process(d, spec, stp.Twice && i == 0, sg.T) {
 				return
 			}
